@@ -1,4 +1,5 @@
 """Contracts of smartquery/scoped_dict.py (C10 Sc1, Sc2; abstract view: scopes = sequence of dicts)."""
+import ast
 import z3
 
 from sqv import logic as L
@@ -297,6 +298,9 @@ def make_scope_task(engine):
 
 def tasks(engine):
     engine.loops.invariants[(MOD + '__getitem__', 0)] = getitem_loop
+    # the invariant (ghost index of the innermost binding) is written for `for scope in reversed(self.scopes)`
+    engine.loops.shape_checks[(MOD + '__getitem__', 0)] = lambda st: isinstance(st, ast.For) and isinstance(st.iter, ast.Call) \
+        and isinstance(st.iter.func, ast.Name) and st.iter.func.id == 'reversed'
     engine.loops.axioms[(MOD + '__getitem__', 0)] = getitem_axioms
     out = []
     add_task(engine, out, lambda: getitem_task(engine))
